@@ -40,7 +40,15 @@ func (ex *Exec) invEnv(st *State, fr *Frame) *SpecEnv {
 // loopCutAfterPhis: on entry to the loop: prove the invariant, havoc everything the loop may change,
 // assume the invariant. On the back edge: prove the invariant and end the path.
 func (ex *Exec) loopCutAfterPhis(st *State, fr *Frame, pc *pendingCut) bool {
+	if !pc.back {
+		// the state in which the loop is entered (before anything is havocked): loopentry(e) in invariants
+		if fr.LoopSnap == nil {
+			fr.LoopSnap = map[int]*State{}
+		}
+		fr.LoopSnap[pc.ord] = st.snapshot()
+	}
 	env := ex.invEnv(st, fr)
+	env.loopOld = fr.LoopSnap[pc.ord]
 	var inv []*Term
 	for _, c := range pc.spec.Invariants {
 		inv = append(inv, env.termBool(c.Expr))
@@ -206,6 +214,7 @@ func (ex *Exec) loopCutAfterPhis(st *State, fr *Frame, pc *pendingCut) bool {
 		st.Ghost[gn] = ex.fresh("loopgh_"+gn, st.Ghost[gn].S)
 	}
 	env = ex.invEnv(st, fr)
+	env.loopOld = fr.LoopSnap[pc.ord]
 	for _, c := range pc.spec.Invariants {
 		st.assume(env.termBool(c.Expr))
 	}
